@@ -57,8 +57,65 @@ func (w *World) getValueTerms(term string, t types.Type, out *[]string) bool {
 			}
 		}
 		return ok
+	case *types.Pointer:
+		// a pointer to a struct of plain fields: the entry heap behind it (nil-ness first)
+		if _, isStruct := u.Elem().Underlying().(*types.Struct); !isStruct {
+			return false
+		}
+		*out = append(*out, "(ite (= "+term+" anil) 1 0)")
+		w.heapValueTerms(term, u.Elem(), out)
+		return true
 	}
 	return false
+}
+
+// heapValueTerms: the entry-heap cells of the plain (integer, boolean, string) fields of the struct at address a.
+func (w *World) heapValueTerms(a string, t types.Type, out *[]string) {
+	st, ok := t.Underlying().(*types.Struct)
+	if !ok {
+		return
+	}
+	si := w.structInfo(t)
+	for i := 0; i < st.NumFields(); i++ {
+		ft := st.Field(i).Type()
+		fa := app("fld", a, fmt.Sprint(si.Tags[i]))
+		switch u := ft.Underlying().(type) {
+		case *types.Basic:
+			cell := app("select", compName(w.compKey(ft))+"_0", fa)
+			switch {
+			case u.Info()&types.IsInteger != 0, u.Info()&types.IsBoolean != 0:
+				*out = append(*out, cell)
+			case u.Info()&types.IsString != 0:
+				*out = append(*out, app("len", cell))
+				for k := 0; k < 12; k++ {
+					*out = append(*out, app("at", cell, fmt.Sprint(k)))
+				}
+			}
+		case *types.Struct:
+			w.heapValueTerms(fa, ft, out)
+		}
+	}
+}
+
+// heapLiteral renders the struct at address a from the model; cells the model says nothing about keep their zero value.
+func (w *World) heapLiteral(a string, t types.Type, vals map[string]string, qual types.Qualifier) string {
+	st := t.Underlying().(*types.Struct)
+	si := w.structInfo(t)
+	var fs []string
+	for i := 0; i < st.NumFields(); i++ {
+		ft := st.Field(i).Type()
+		fa := app("fld", a, fmt.Sprint(si.Tags[i]))
+		switch ft.Underlying().(type) {
+		case *types.Basic:
+			cell := app("select", compName(w.compKey(ft))+"_0", fa)
+			if lit, ok := w.goLiteral(cell, ft, vals, qual); ok {
+				fs = append(fs, st.Field(i).Name()+": "+lit)
+			}
+		case *types.Struct:
+			fs = append(fs, st.Field(i).Name()+": "+w.heapLiteral(fa, ft, vals, qual))
+		}
+	}
+	return types.TypeString(t, qual) + "{" + strings.Join(fs, ", ") + "}"
 }
 
 // goLiteral renders the model value of an input as a Go expression.
@@ -102,6 +159,14 @@ func (w *World) goLiteral(term string, t types.Type, vals map[string]string, qua
 			fs = append(fs, u.Field(i).Name()+": "+f)
 		}
 		return types.TypeString(t, qual) + "{" + strings.Join(fs, ", ") + "}", true
+	case *types.Pointer:
+		if _, isStruct := u.Elem().Underlying().(*types.Struct); !isStruct {
+			return "", false
+		}
+		if vals["(ite (= "+term+" anil) 1 0)"] == "1" {
+			return "nil", true
+		}
+		return "&" + w.heapLiteral(term, u.Elem(), vals, qual), true
 	}
 	return "", false
 }
@@ -113,10 +178,14 @@ func (w *World) replayInfoFor(pi *PkgInfo, fn *ssa.Function, inputs map[string]s
 	ri := &replayInfo{PkgPath: pi.path, PkgDir: filepath.Dir(pi.pkg.GoFiles[0]), PkgName: pi.types.Name(), NRes: fn.Signature.Results().Len()}
 	if recv := fn.Signature.Recv(); recv != nil {
 		rt := recv.Type()
-		if _, isPtr := rt.Underlying().(*types.Pointer); isPtr {
-			return nil
+		if pt, isPtr := rt.Underlying().(*types.Pointer); isPtr {
+			if _, isStruct := pt.Elem().Underlying().(*types.Struct); !isStruct {
+				return nil
+			}
+			ri.Call = "(" + types.TypeString(rt, types.RelativeTo(pi.types)) + ")." + fn.Name()
+		} else {
+			ri.Call = types.TypeString(rt, types.RelativeTo(pi.types)) + "." + fn.Name()
 		}
-		ri.Call = types.TypeString(rt, types.RelativeTo(pi.types)) + "." + fn.Name()
 	} else {
 		ri.Call = fn.Name()
 	}
